@@ -25,7 +25,8 @@ TECHNIQUE = "symbolic execution (symx + z3) of the real renderer's line arithmet
 LEVEL_TEXT = ("For every document layout of the bounded layout grammar (paragraphs, headings, lists, block quotes, code fences, targets, backtick and colon directives nested up to depth 3 with "
               "no / ':key:' / '---' option blocks and 0-2 blank lines before the body, unknown directives and roles producing warnings, include of a file) rendered by the real renderer at a "
               "symbolic line offset S, z3 proves for every marker-carrying block node and every MyST warning that its line equals S + 1 + (index of the construct's first line), for all S >= 0; "
-              "included nodes carry the included file's path and their line within that file, and the outer source is restored afterwards.")
+              "included nodes carry the included file's path and their line within that file, and the outer source is restored afterwards (also for warnings raised after the include). Lines with form feeds, "
+              "unterminated last directives and multi-line duplicate reference definitions are part of the grammar.")
 LEVEL_NOTE = ("The line offset is genuinely symbolic (unbounded integer); layouts are solver-enumerated (degenerate). markdown-it's own token maps are trusted (assumption: token.map[0] is the "
               "0-based first line of the construct). Real docutils admonition directives run natively between the instrumented MyST layers.")
 BUDGET_S = {"quick": 150, "thorough": 1200}
